@@ -110,6 +110,16 @@ def _structural_eq(ctx, x, y):
         return z3.And(*[_structural_eq(ctx, p_, q_) for p_, q_ in zip(x.f, y.f)]) if x.f else z3.BoolVal(True)
     if is_z3(x) and is_z3(y):
         return x == y
+    if isinstance(x, AuthorityV) and isinstance(y, AuthorityV):
+        # http::uri::Authority: PartialEq compares the whole text (userinfo, host, port) ASCII case-insensitively (authority.rs)
+        # for the well-formed `[userinfo@]host[:port]` values of AuthorityV (no ':' in a host outside brackets, no '@' in host or
+        # port) the texts are equal iff the components are: compared component-wise, which keeps the string constraints small
+        parts = [lower_of(ctx, x.host) == lower_of(ctx, y.host), x.has_port == y.has_port, z3.Implies(z3.And(x.has_port, y.has_port), x.port_text == y.port_text)]
+        ux = x.userinfo if x.userinfo is not None else z3.StringVal("")
+        uy = y.userinfo if y.userinfo is not None else z3.StringVal("")
+        if x.userinfo is not None or y.userinfo is not None:
+            parts.append(lower_of(ctx, ux) == lower_of(ctx, uy))
+        return z3.And(*parts)
     raise Inconclusive(f"structural equality of {x!r} and {y!r}")
 
 
@@ -127,6 +137,37 @@ def _derived_ne(ctx, a, c):
 def _opt_map_or_else(ctx, a, c):
     o = need_opt(a[0])
     return call_closure(ctx, a[2], [o.f[0]]) if is_some(o) else call_closure(ctx, a[1], [])
+
+
+@model("bool::then", doc="core: true => Some(f()), false => None")
+def _bool_then(ctx, a, c):
+    if ctx.branch(a[0], "then condition"):
+        return some(call_closure(ctx, a[1], []))
+    return none()
+
+
+@model("Option::flatten", doc="core: Option<Option<T>> -> Option<T>")
+def _opt_flatten(ctx, a, c):
+    o = need_opt(a[0])
+    return o.f[0] if is_some(o) else none()
+
+
+@model("Option::xor", doc="core")
+def _opt_xor(ctx, a, c):
+    x, y = need_opt(a[0]), need_opt(a[1])
+    if is_some(x) and not is_some(y):
+        return x
+    if is_some(y) and not is_some(x):
+        return y
+    return none()
+
+
+@model("usize::clamp", "Ord::clamp", "<usize as Ord>::clamp", doc="core: panics if min > max (`assert!(min <= max)`), else the value clamped into [min, max]")
+def _clamp(ctx, a, c):
+    v, lo, hi = a
+    if ctx.branch(z3.UGT(lo, hi), "clamp: min > max"):
+        raise Panic("assertion failed: min <= max (Ord::clamp)")
+    return z3.If(z3.ULT(v, lo), lo, z3.If(z3.UGT(v, hi), hi, v))
 
 
 @model("Option::then_some", "bool::then_some", doc="core: true => Some(v), false => None")
@@ -283,6 +324,30 @@ def _res_map(ctx, a, c):
 @model("Box::pin", "Box::new", doc="alloc: boxing preserves the value")
 def _box_identity(ctx, a, c):
     return a[0]
+
+
+@model("Result::map_or", doc="core: Ok(x) => f(x), Err(_) => default")
+def _result_map_or(ctx, a, c):
+    r = a[0]
+    return call_closure(ctx, a[2], [r.f[0]]) if r.variant == "Ok" else a[1]
+
+
+@model("Result::map_or_else", doc="core: Ok(x) => f(x), Err(e) => default(e)")
+def _result_map_or_else(ctx, a, c):
+    r = a[0]
+    return call_closure(ctx, a[2], [r.f[0]]) if r.variant == "Ok" else call_closure(ctx, a[1], [r.f[0]])
+
+
+@model("Result::is_ok_and", doc="core")
+def _result_is_ok_and(ctx, a, c):
+    r = a[0]
+    return call_closure(ctx, a[1], [r.f[0]]) if r.variant == "Ok" else z3.BoolVal(False)
+
+
+@model("Result::err", doc="core")
+def _result_err(ctx, a, c):
+    r = a[0]
+    return some(r.f[0]) if r.variant == "Err" else none()
 
 
 @model("Result::unwrap_or_else", doc="core: Ok(x) => x, Err(e) => f(e)")
@@ -1123,10 +1188,41 @@ def _hn_from_static(ctx, a, c):
     return HeaderNameV(s.as_string())
 
 
-@model("HeaderMap::entry", doc="http header/map.rs: entry for a name")
+class EntryV(Agg):
+    """http::header::Entry<'_, T> = Occupied(OccupiedEntry) | Vacant(VacantEntry) (map.rs); both payloads are
+    (map, name).  Behaves like the old aggregate for `or_insert_with`, and like the enum for `match` / `if let`."""
+
+    def __init__(self, m, name):
+        super().__init__("entry", [m, name])
+
+    def mir_discriminant(self, ctx):
+        m, name = self.f
+        return z3.BitVecVal(0 if m.cell(name).v is not None else 1, 64)
+
+    def mir_downcast(self, variant):
+        return Agg("entry-variant", [self])
+
+
+@model("HeaderMap::entry", doc="http header/map.rs: entry for a name (Occupied iff a value is present)")
 def _hm_entry(ctx, a, c):
     m = deref(ctx, a[0])
-    return Agg("entry", [m, header_name(ctx, a[1])])
+    return EntryV(m, header_name(ctx, a[1]))
+
+
+@model("VacantEntry::insert", "VacantEntry::insert_entry", doc="http header/map.rs: stores the value for the vacant name")
+def _vacant_insert(ctx, a, c):
+    m, name = a[0].f
+    cell = m.cell(name)
+    cell.v = a[1]
+    ctx.events.append(("header_inserted", name))
+    return Ref(cell)
+
+
+@model("OccupiedEntry::get", "OccupiedEntry::get_mut", "OccupiedEntry::into_mut", doc="http header/map.rs")
+def _occupied_get(ctx, a, c):
+    e = deref(ctx, a[0])
+    m, name = e.f
+    return Ref(m.cell(name))
 
 
 @model("Entry::or_insert_with", doc="http header/map.rs: existing value kept, else the closure's value is inserted")
@@ -1181,6 +1277,17 @@ def _hv_from_str(ctx, a, c):
 def _hv_to_str(ctx, a, c):
     v = deref(ctx, a[0])
     return ok(v.text)
+
+
+@model("HeaderValue::as_bytes", "HeaderValue::as_ref", doc="http header/value.rs: the raw bytes of the value (kept as the text the value was built from)")
+def _hv_as_bytes(ctx, a, c):
+    return deref(ctx, a[0]).text
+
+
+@model("<Authority as TryFrom<&[u8]>>::try_from", "<Authority as TryFrom<&str>>::try_from", "<Authority as TryFrom>::try_from", "Authority::try_from", "<Authority as FromStr>::from_str", "Authority::from_maybe_shared",
+       doc="http uri/authority.rs: parsing text into an Authority: the inverse of as_str for text produced from a structured authority (see str::parse)")
+def _authority_try_from(ctx, a, c):
+    return _str_parse(ctx, a, "Authority")
 
 
 class RequestV:
@@ -1257,7 +1364,7 @@ class IterV:
         self.count = 0
 
 
-@model("<[] as IntoIterator>::into_iter", "<&[] as IntoIterator>::into_iter", "slice::iter", "<[]>::iter", doc="core: slice iterator over element references")
+@model("<[] as IntoIterator>::into_iter", "<&[] as IntoIterator>::into_iter", "slice::iter", "<[]>::iter", "[]::iter", doc="core: slice iterator over element references")
 def _slice_into_iter(ctx, a, c):
     r = a[0]
     arr = deref(ctx, r)
@@ -1277,6 +1384,55 @@ def _iter_items(ctx, v):
     if not isinstance(it, IterV):
         raise Inconclusive("iterator adapter on " + repr(it))
     return it
+
+
+class FilterV:
+    """core::iter::Filter over an element iterator: lazy, the predicate runs when an item is pulled"""
+
+    def __init__(self, it, pred):
+        self.it, self.pred = it, pred
+
+    def pull(self, ctx):
+        it = self.it
+        while it.pos < len(it.items):
+            x = it.items[it.pos]
+            it.pos += 1
+            if ctx.branch(call_closure(ctx, self.pred, [Ref(Cell(x, "filter-arg"))]), "filter predicate"):
+                return x
+        return None
+
+
+@model("Iterator::filter", "<Iter as Iterator>::filter", doc="core: lazily filtered iterator")
+def _iter_filter_lazy(ctx, a, c):
+    return FilterV(_iter_items(ctx, a[0]), a[1])
+
+
+@model("<Filter as Iterator>::for_each", doc="core: body for every item that passes the filter, predicate and body interleaved per item")
+def _filter_for_each(ctx, a, c):
+    f = a[0]
+    if not isinstance(f, FilterV):
+        raise Inconclusive("for_each on " + repr(f))
+    while True:
+        x = f.pull(ctx)
+        if x is None:
+            return UNIT
+        call_closure(ctx, a[1], [x])
+
+
+@model("<Filter as Iterator>::next", doc="core")
+def _filter_next(ctx, a, c):
+    f = deref(ctx, a[0])
+    x = f.pull(ctx)
+    return some(x) if x is not None else none()
+
+
+@model("<Filter as Iterator>::count", doc="core: number of items passing the filter")
+def _filter_count(ctx, a, c):
+    f = a[0]
+    n = 0
+    while f.pull(ctx) is not None:
+        n += 1
+    return z3.BitVecVal(n, 64)
 
 
 @model("Iterator::position", "<Iter as Iterator>::position", "<IterMut as Iterator>::position", doc="core: index of the first item for which the predicate holds (items are tested in order, each test may fork)")
@@ -1492,9 +1648,18 @@ def _arc_clone(ctx, a, c):
 
 
 # ---- parsing text back into structured values (only text the input builder produced) --------------
-@model("str::parse", doc="core: `s.parse::<http::uri::Authority>()`: the inverse of Authority::as_str for text that was produced from a structured authority (registered by the input builder); any other text is inconclusive")
+@model("str::parse", doc="core: `s.parse::<Uri>()` for path-and-query texts ('/'... and '*' parse, '?'... and '' do not); `s.parse::<http::uri::Authority>()`: the inverse of Authority::as_str for text that was produced from a structured authority (registered by the input builder); any other text is inconclusive")
 def _str_parse(ctx, a, c):
     s = as_str(ctx, a[0])
+    if re.search(r"parse::<(http::)?(uri::)?Uri>", c):
+        # http::Uri::from_str (uri/mod.rs from_shared) on a path-and-query text: a text that starts with '/' is parsed as
+        # path-and-query only, "*" is the asterisk form; anything else must start with a scheme or an authority, so a
+        # text beginning with '?' is rejected (InvalidFormat), the empty text too (Empty)
+        if ctx.branch(z3.PrefixOf(z3.StringVal("/"), s), "text starts with '/'") or ctx.branch(s == z3.StringVal("*"), "text is '*'"):
+            return ok(UriV(z3.BoolVal(False), z3.StringVal(""), z3.BoolVal(False), AuthorityV(z3.StringVal(""), z3.BoolVal(False), z3.BitVecVal(0, 16)), s))
+        if ctx.branch(z3.Or(z3.PrefixOf(z3.StringVal("?"), s), s == z3.StringVal("")), "text starts with '?' or is empty"):
+            return err(Opaque("InvalidUri"))
+        raise Inconclusive("str::parse::<Uri> of a text that is not a path-and-query")
     if "Authority" not in c:
         raise Inconclusive("str::parse for " + c)
     reg = getattr(ctx, "parse_registry", {})
